@@ -307,6 +307,14 @@ ResultSound(c, s) ==
 \* the call never is blocked past the effective deadline
 TimeOK(s) == s.now <= 1
 
+\* the effective deadline of a call in real time (ms from its start): the shorter of the request timeout (explicitly
+\* set, or left at the default; none when set to 0) and the deadline of the caller's context (none: < 0); a cancelled
+\* context is done at once.  `none` stands for "no deadline".
+MinMs(a, b) == IF a < b THEN a ELSE b
+EffectiveDeadline(tsrc, timeoutMs, ctxMs, cancelMs, none) ==
+  MinMs(IF tsrc = "zero" THEN none ELSE timeoutMs,
+        MinMs(IF ctxMs < 0 THEN none ELSE ctxMs, IF cancelMs < 0 THEN none ELSE cancelMs))
+
 Obs(c, s) ==
   [ res |-> s.res, resp |-> s.resp,
     files_closed |-> \A i \in 1..2 : ~s.fileOpen[i],
